@@ -252,12 +252,12 @@ impl Rec {
     /// Runs `f` under `catch_unwind`; records its value or `Panic`. Returns
     /// whether it completed.
     pub fn call(&mut self, key: String, f: impl FnOnce() -> Val) -> bool {
-        match std::panic::catch_unwind(std::panic::AssertUnwindSafe(f)) {
-            Ok(v) => {
+        match crate::panics::catch(f) {
+            Some(v) => {
                 self.t.push(key, v);
                 true
             }
-            Err(_) => {
+            None => {
                 self.t.push(key, Val::Panic);
                 false
             }
